@@ -257,8 +257,15 @@ fn fmt_byte(v: u8, radix: u8) -> String {
     }
 }
 
+/// the real CLI binary, built by `./check` from /repo's working tree into sim/target-repo
+/// (located relative to this executable, not to VERIF_DIR)
 pub fn cli_binary() -> PathBuf {
-    verif_dir().join("sim/target-repo/release/2a-emulator")
+    let exe = std::env::current_exe().unwrap_or_default();
+    // <sim>/target/release/simcheck -> <sim>/target-repo/release/2a-emulator
+    match exe.parent().and_then(|p| p.parent()).and_then(|p| p.parent()) {
+        Some(sim) => sim.join("target-repo/release/2a-emulator"),
+        None => verif_dir().join("sim/target-repo/release/2a-emulator"),
+    }
 }
 
 struct Sandbox(PathBuf);
